@@ -161,26 +161,45 @@ func execRouter(in J) J {
 	missing, _ := in["missing"].(bool)
 	hs := headerPairs(in)
 	out := J{}
-	for _, mode := range []string{"ro", "rw"} {
+	// "ro"/"rw": the api router alone; "ro_m"/"rw_m": the same router mounted under an outer chi router, as cmd/serve.go
+	// serves it (the outer mux fixes chi's RouteMethod and RoutePath before the api middlewares run)
+	for _, mode := range []string{"ro", "rw", "ro_m", "rw_m"} {
 		b := buildRequest(method, target, hs, body)
 		out["parse"], out["rpath"] = b.parse, b.rpath
 		if b.parse == "unparsable" {
 			out[mode] = J{"outcome": "unparsable", "writes": []any{}, "rejected": false}
 			continue
 		}
-		out[mode] = safeExec(func(J) J { return serveOnce(b.req, mode == "ro", missing) }, nil)
+		out[mode] = safeExec(func(J) J {
+			return serveOnce(b.req, strings.HasPrefix(mode, "ro"), missing, strings.HasSuffix(mode, "_m"))
+		}, nil)
 	}
 	return out
 }
 
-func serveOnce(req *http.Request, readOnly, missing bool) J {
+func serveOnce(req *http.Request, readOnly, missing, mounted bool) J {
 	fl := &fakeLedger{}
 	fb := &fakeBackend{l: fl, ledgerNotFound: missing}
 	router := newRealRouter(fb, readOnly)
 	rctx := chi.NewRouteContext()
-	req = req.WithContext(context.WithValue(req.Context(), chi.RouteCtxKey, rctx))
 	rec := httptest.NewRecorder()
-	router.ServeHTTP(rec, req)
+	if mounted {
+		// cmd/serve.go: wrappedRouter := chi.NewRouter(); wrappedRouter.Use(…logger…); wrappedRouter.Mount("/", h)
+		outer := chi.NewRouter()
+		outer.Use(func(next http.Handler) http.Handler {
+			return http.HandlerFunc(func(w http.ResponseWriter, r *http.Request) {
+				next.ServeHTTP(w, r)
+				if c := chi.RouteContext(r.Context()); c != nil { // copied before chi returns the context to its pool
+					rctx.RoutePatterns = append([]string{}, c.RoutePatterns...)
+				}
+			})
+		})
+		outer.Mount("/", router)
+		outer.ServeHTTP(rec, req)
+	} else {
+		req = req.WithContext(context.WithValue(req.Context(), chi.RouteCtxKey, rctx))
+		router.ServeHTTP(rec, req)
+	}
 
 	var resp struct {
 		ErrorCode string `json:"errorCode"`
@@ -267,6 +286,9 @@ var (
 	}
 	bodyNames = sortedKeys(bodies)
 )
+
+// spellings of a path parameter: "<" ">" = the two halves of its value, "^" = the value with its first byte percent-encoded
+var paramEscapes = []string{"<%2F>", "<%2f>", "<>%2F", "%2F<>", "<%252F>", "^", "<%20>", "<%3A>", "<%2E%2E%2F>", "<%2F>%2F<>"}
 
 func paramValue(name string, r *rng, ledger string) string {
 	switch name {
@@ -358,6 +380,28 @@ func genRouter(r *rng, n int, tier string, emit func(J)) {
 		}
 		for k := 0; k < 3; k++ {
 			emitOne(r, emit, pat, r.pick(rareMethods), "mutate")
+		}
+	}
+	// (C) every registered route with its own method and a body its handler accepts, one path parameter at a time spelled
+	//     with an escape inside it (an encoded slash keeps the segment together for chi, which routes on the raw path, and
+	//     splits it for everything that looks at the decoded path)
+	for _, k := range routes {
+		segs0 := strings.Split(strings.TrimPrefix(k.Pattern, "/"), "/")
+		for i, sg := range segs0 {
+			if !(strings.HasPrefix(sg, "{") && strings.HasSuffix(sg, "}")) {
+				continue
+			}
+			for _, variant := range paramEscapes {
+				segs := instantiate(k.Pattern, r, "ledger0")
+				v := segs[i]
+				cut := len(v) / 2
+				segs[i] = strings.NewReplacer("<", v[:cut], ">", v[cut:], "^", pctEncodeAt(v, 0)).Replace(variant)
+				bk := bodyFor(k.Pattern, r, false)
+				in := J{"op": "req", "method": k.Method, "target": "/" + strings.Join(segs, "/"), "headers": []any{}, "body": bodies[bk],
+					"bodykind": bk, "missing": false, "base": J{"pattern": k.Pattern}, "mut": []any{"param-escape"}}
+				finishReq(in)
+				emit(in)
+			}
 		}
 	}
 	// paths outside every registered pattern
